@@ -61,30 +61,49 @@ func TestTableOrigin(t *testing.T) {
 		}
 		return string(b)
 	}
+	// thorough: origins one symbol longer than the allow-list entries, tried against every entry of up to two symbols
+	origins := all
+	if envInt("VERIF_ORIGIN_EXT", 0) == 1 {
+		allSeqs(alpha, L+1, func(s []string) {
+			if len(s) == L+1 {
+				origins = append(origins, s)
+			}
+		})
+	}
+	ostr := make([]string, len(origins))
+	for i, o := range origins {
+		ostr[i] = str(o)
+	}
 	enc.Encode(Rec{"maxlen": L, "alphabet": alpha, "count": len(all)})
 	for _, al := range all {
+		upto := len(all)
+		if len(al) <= 2 {
+			upto = len(origins)
+		}
+		list := []string{lower(str(al))}
 		m := []any{}
-		for j, or := range all {
-			if server.VerifMatchesOrigins([]string{lower(str(al))}, str(or)) {
+		for j := 0; j < upto; j++ {
+			if server.VerifMatchesOrigins(list, ostr[j]) {
 				m = append(m, j+1)
 			}
 		}
-		enc.Encode(Rec{"allowed": al, "m": m})
+		enc.Encode(Rec{"allowed": al, "m": m, "upto": upto})
 	}
 	// two-entry allow-lists
 	for i := 0; i < len(all); i += 37 {
 		for j := 0; j < len(all); j += 41 {
+			list := []string{lower(str(all[i])), lower(str(all[j]))}
 			m := []any{}
-			for k, or := range all {
-				if server.VerifMatchesOrigins([]string{lower(str(all[i])), lower(str(all[j]))}, str(or)) {
+			for k := 0; k < len(all); k++ {
+				if server.VerifMatchesOrigins(list, ostr[k]) {
 					m = append(m, k+1)
 				}
 			}
-			enc.Encode(Rec{"allowed": all[i], "allowed2": all[j], "m": m})
+			enc.Encode(Rec{"allowed": all[i], "allowed2": all[j], "m": m, "upto": len(all)})
 		}
 	}
-	ol := make([]any, len(all))
-	for i, o := range all {
+	ol := make([]any, len(origins))
+	for i, o := range origins {
 		ol[i] = o
 	}
 	enc.Encode(Rec{"origins": ol})
